@@ -116,6 +116,72 @@ Definition new1_plain (cls : Z) (nouts : nat) (args : list arg) : M arg :=
             Ok (if nouts <=? 1 then Scalar (U uid 0) else Lst (proxies uid nouts))
                (st ++ [mkUnit cls args]).
 
+(* ---- calculation rates --------------------------------------------------------------- *)
+(* A class id carries the unit's rate: id = 4 * base + code (scalar 0, control 1, audio 2,
+   demand 3); [base] identifies class name, operator, number of outputs and special index.
+   So the rate of every created unit is part of what is compared with the implementation. *)
+Inductive rate := RScalar | RControl | RAudio | RDemand.
+Definition rate_code (r : rate) : Z :=
+  match r with RScalar => 0 | RControl => 1 | RAudio => 2 | RDemand => 3 end.
+Definition with_rate (base : Z) (r : rate) : Z := 4 * base + rate_code r.
+Definition cls_rate (c : Z) : rate :=
+  match (c mod 4)%Z with 1%Z => RControl | 2%Z => RAudio | 3%Z => RDemand | _ => RScalar end.
+(* the rate of a UGen object / OutputProxy: that of the unit it belongs to *)
+Definition unit_rate (st : state) (uid : nat) : rate :=
+  match nth_error st uid with Some u => cls_rate (ucls u) | None => RScalar end.
+(* utils.list_min on the rate NAMES: 'audio' < 'control' < 'demand' < 'scalar' *)
+Definition alpha_rank (r : rate) : nat :=
+  match r with RAudio => 0 | RControl => 1 | RDemand => 2 | RScalar => 3 end.
+Definition alpha_min (a b : rate) : rate := if alpha_rank b <? alpha_rank a then b else a.
+(* ugen_param(x)._as_ugen_rate(): numbers, strings (and None inside sequences) 'scalar'; a
+   sequence of one element has that element's rate, otherwise list_min of the elements' rates;
+   None = IndexError (list_min of an empty sequence) *)
+Fixpoint arg_rate (st : state) (a : arg) : option rate :=
+  match a with
+  | Scalar (U uid _) => Some (unit_rate st uid)
+  | Scalar _ => Some RScalar
+  | Tuple l | Lst l =>
+    match l with
+    | [] => None
+    | x :: r =>
+      match r with
+      | [] => arg_rate st x
+      | _ => (fix go (l : list arg) (acc : option rate) : option rate :=
+                match l with
+                | [] => acc
+                | y :: r' => match acc, arg_rate st y with
+                             | Some m, Some ry => go r' (Some (alpha_min m ry))
+                             | _, _ => None
+                             end
+                end) r (arg_rate st x)
+      end
+    end
+  end.
+(* BinaryOpUGen._determine_rate: demand, audio, control, scalar in this order of precedence *)
+Definition max_rate (a b : rate) : rate :=
+  match a, b with
+  | RDemand, _ | _, RDemand => RDemand
+  | RAudio, _ | _, RAudio => RAudio
+  | RControl, _ | _, RControl => RControl
+  | _, _ => RScalar
+  end.
+Definition ratefn := state -> list arg -> option rate.
+Definition binop_ratef : ratefn := fun st args =>
+  match args with
+  | [a; b] => match arg_rate st a, arg_rate st b with
+              | Some x, Some y => Some (max_rate x y) | _, _ => None end
+  | _ => None
+  end.
+Definition unop_ratef : ratefn := fun st args =>          (* UnaryOpUGen: the input's rate *)
+  match args with [a] => arg_rate st a | _ => None end.
+Definition inputs_ratef : ratefn := fun st args => arg_rate st (Tuple args).   (* MulAdd: rate of the inputs tuple *)
+(* _new1 of a class whose _init_ugen determines the rate from the unit's OWN inputs *)
+Definition new1_rated (base : Z) (nouts : nat) (rf : ratefn) (args : list arg) : M arg :=
+  fun st => match rf st args with
+            | Some r => new1_plain (with_rate base r) nouts args st
+            | None => Err IndexError
+            end.
+
 (* number of units an expansion creates for a one-unit constructor (pure) *)
 Fixpoint count_calls_f (fuel : nat) (args : list arg) : nat :=
   match fuel with
@@ -227,50 +293,125 @@ Definition is_unit (a : arg) : bool := match a with Scalar (U _ _) => true | _ =
    rate, [num] = the Python arithmetic on two ints.  UGen._compose_binop/_rcompose_binop ->
    BinaryOpUGen.new(sel, a, b) -> _multi_new('audio', sel, a, b); numbers 0, 1, -1 trigger the
    _new1 shortcuts (Ctor.v, property C01) and are excluded by the callers of this model. *)
-Definition scalar_binop (cls : Z) (num : Z -> Z -> Z) (x y : arg) : M arg :=
+Definition scalar_binop (base : Z) (num : Z -> Z -> Z) (x y : arg) : M arg :=
   match x, y with
   | Scalar (K a), Scalar (K b) => ret (Scalar (K (num a b)))
   | Scalar (Str _), _ | _, Scalar (Str _) => raise TypeError
-  | _, _ => multi_new (new1_plain cls 1) [x; y]
+  | _, _ => multi_new (new1_rated base 1 binop_ratef) [x; y]
   end.
-(* UGen op y  (y any tree): invalid (empty) sequences raise TypeError, otherwise BinaryOpUGen.new *)
-Definition ugen_binop (cls : Z) (x y : arg) : M arg :=
+(* UGen op y  (y any tree): invalid (empty) sequences raise TypeError, otherwise BinaryOpUGen.new;
+   the rate of every created unit is _determine_rate of ITS two inputs *)
+Definition ugen_binop (base : Z) (x y : arg) : M arg :=
   match y with
   | Lst [] | Tuple [] | Scalar (Str _) => raise TypeError
-  | _ => multi_new (new1_plain cls 1) [x; y]
+  | _ => multi_new (new1_rated base 1 binop_ratef) [x; y]
   end.
-Definition ugen_rbinop (cls : Z) (y x : arg) : M arg :=      (* y op UGen *)
+Definition ugen_rbinop (base : Z) (y x : arg) : M arg :=      (* y op UGen *)
   match y with
   | Lst [] | Tuple [] | Scalar (Str _) => raise TypeError
-  | _ => multi_new (new1_plain cls 1) [y; x]
+  | _ => multi_new (new1_rated base 1 binop_ratef) [y; x]
   end.
-Definition scalar_unop (cls : Z) (num : Z -> Z) (x : arg) : M arg :=
+Definition scalar_unop (base : Z) (num : Z -> Z) (x : arg) : M arg :=
   match x with
   | Scalar (K a) => ret (Scalar (K (num a)))
   | Scalar (Str _) => raise TypeError
-  | _ => multi_new (new1_plain cls 1) [x]
+  | _ => multi_new (new1_rated base 1 unop_ratef) [x]
   end.
 (* AbstractSequence._compose_binop / _rcompose_binop / _compose_unop on a ChannelList *)
-Definition cl_binop (cls : Z) (num : Z -> Z -> Z) (self other : arg) : M arg :=
-  list_binop (scalar_binop cls num) self other KList.
-Definition cl_rbinop (cls : Z) (num : Z -> Z -> Z) (other self : arg) : M arg :=
-  list_binop (scalar_binop cls num) other self KList.
-Definition cl_unop (cls : Z) (num : Z -> Z) (self : arg) : M arg :=
-  list_unop (scalar_unop cls num) self KList.
+Definition cl_binop (base : Z) (num : Z -> Z -> Z) (self other : arg) : M arg :=
+  list_binop (scalar_binop base num) self other KList.
+Definition cl_rbinop (base : Z) (num : Z -> Z -> Z) (other self : arg) : M arg :=
+  list_binop (scalar_binop base num) other self KList.
+Definition cl_unop (base : Z) (num : Z -> Z) (self : arg) : M arg :=
+  list_unop (scalar_unop base num) self KList.
+
+(* ---- MulAdd ------------------------------------------------------------------------------ *)
+(* MulAdd._can_be_muladd(input, mul, add) *)
+Definition can_be_muladd (st : state) (i m a : arg) : option bool :=
+  match arg_rate st i with
+  | Some RAudio => Some true
+  | Some RControl =>
+    match arg_rate st m, arg_rate st a with
+    | Some rm, Some ra =>
+      Some (match rm with RControl | RScalar => true | _ => false end &&
+            match ra with RControl | RScalar => true | _ => false end)
+    | _, _ => None
+    end
+  | Some _ => Some false
+  | None => None
+  end.
+(* MulAdd._new1(rate, input, mul, add) without the shortcuts for the constants 0, 1, -1 (C01;
+   excluded by the callers): a MulAdd unit on (input, mul, add) or on (mul, input, add) when the
+   rates allow it, otherwise (input * mul) + add.  The [rate] argument (computed ONCE by
+   MulAdd.new from the complete argument lists) is ignored: _init_ugen sets the unit's rate from
+   its own three inputs.  [bm ba] = BinaryOpUGen '*' and '+'. *)
+Definition muladd_new1 (base bm ba : Z) (args : list arg) : M arg :=
+  match args with
+  | [input; mul; add] =>
+    fun st =>
+      match can_be_muladd st input mul add with
+      | None => Err IndexError
+      | Some true => new1_rated base 1 inputs_ratef [input; mul; add] st
+      | Some false =>
+        match can_be_muladd st mul input add with
+        | None => Err IndexError
+        | Some true => new1_rated base 1 inputs_ratef [mul; input; add] st
+        | Some false =>
+          match input with
+          | Scalar (U _ _) => bind (ugen_binop bm input mul) (fun x => ugen_binop ba x add) st
+          | _ => Err NotModelled
+          end
+        end
+      end
+  | _ => raise TypeError
+  end.
+Definition muladd_new (base bm ba : Z) (input mul add : arg) : M arg :=
+  multi_new (muladd_new1 base bm ba) [input; mul; add].
 
 (* ---- ChannelList convenience methods ------------------------------------ *)
 (* UGen.<method>( *args) for the methods that go straight to a constructor:
    Clip/LagUD/Slew:  Cls.ar(self, *args) -> _multi_new('audio', self, *args)
    lag family: Lag.ar returns its input when lag_time is the number 0. *)
-Inductive meth := MDirect (cls : Z) | MLag (cls : Z) | MClip (cls : Z).
+Inductive meth :=
+  | MDirect (base : Z)                 (* LagUD, Slew: ar kr *)
+  | MLag (base : Z)                    (* Lag, Lag2, Lag3: ar kr, input returned for time 0 *)
+  | MClip (base : Z)                   (* Clip, Fold, Wrap, ModDif: ar kr ir *)
+  | MRange (base bm ba : Z).           (* range(lo, hi) of a bipolar unit: MulAdd *)
+(* the constructor is selected by the RECEIVER's rate (Cls._method_selector_for_rate(self.rate)):
+   the rate of each channel's unit is the rate of that channel's receiver element *)
 Definition ugen_method (m : meth) (x : arg) (args : list arg) : M arg :=
-  match m with
-  | MDirect cls | MClip cls => multi_new (new1_plain cls 1) (x :: args)
-  | MLag cls => match args with
-                | [Scalar (K 0%Z)] => ret x
-                | _ => multi_new (new1_plain cls 1) (x :: args)
-                end
-  end.
+  fun st =>
+    match x with
+    | Scalar (U u _) =>
+      let r := unit_rate st u in
+      match m with
+      | MClip b => match r with
+                   | RDemand => Err AttributeError
+                   | _ => multi_new (new1_plain (with_rate b r) 1) (x :: args) st
+                   end
+      | MDirect b => match r with
+                     | RScalar | RDemand => Err AttributeError
+                     | _ => multi_new (new1_plain (with_rate b r) 1) (x :: args) st
+                     end
+      | MLag b => match r with
+                  | RScalar | RDemand => Err AttributeError
+                  | _ => match args with
+                         | [Scalar (K 0%Z)] => Ok x st
+                         | _ => multi_new (new1_plain (with_rate b r) 1) (x :: args) st
+                         end
+                  end
+      | MRange b bm ba =>
+        (* mul = (hi - lo) * 0.5; add = mul + lo; MulAdd.new(self, mul, add) *)
+        match args with
+        | [Scalar (K lo); Scalar (K hi)] =>
+          if Z.even (hi - lo)
+          then muladd_new b bm ba x (Scalar (K ((hi - lo) / 2))) (Scalar (K ((hi - lo) / 2 + lo))) st
+          else Err NotModelled
+        | _ => Err NotModelled
+        end
+      end
+    | _ => Err AttributeError
+    end.
 (* _multichannel_perform(selector, *args):
      l = [ugen_param(i) for i in self]
      l = [getattr(i[0], selector)( *i[1:]) for i in flop([l, *args])]
@@ -302,7 +443,7 @@ End McPerform.
 Definition leaf_method (m : meth) (x : arg) (rest : list arg) : M arg :=
   match x with
   | Scalar (U u c) => ugen_method m (Scalar (U u c)) rest
-  | Scalar (K z) => match m with MClip _ => raise NotModelled | _ => ret (Scalar (K z)) end
+  | Scalar (K z) => match m with MClip _ | MRange _ _ _ => raise NotModelled | _ => ret (Scalar (K z)) end
   | _ => raise AttributeError
   end.
 Definition mc_perform (m : meth) (self : list arg) (args : list arg) : M arg :=
@@ -313,13 +454,13 @@ Definition mc_perform (m : meth) (self : list arg) (args : list arg) : M arg :=
 Definition cl_dup (self : list arg) (n : nat) : M arg := ret (Lst (repeat (Lst self) n)).
 (* x + y on two non-sequences INCLUDING BinaryOpUGen._new1's shortcuts for '+'
    (a == 0 -> b, b == 0 -> a), which sum() always meets because it starts from 0 *)
-Definition add0 (cls : Z) (x y : arg) : M arg :=
+Definition add0 (base : Z) (x y : arg) : M arg :=
   match x, y with
   | Scalar (K a), Scalar (K b) => ret (Scalar (K (a + b)))
   | Scalar (Str _), _ | _, Scalar (Str _) => raise TypeError
   | Scalar (K 0%Z), _ => ret y
   | _, Scalar (K 0%Z) => ret x
-  | _, _ => multi_new (new1_plain cls 1) [x; y]
+  | _, _ => multi_new (new1_rated base 1 binop_ratef) [x; y]
   end.
 (* sum(): list_sum(self, type(self)):  res = 0; for item in lst: res = list_binop(add, res, item, t) *)
 Definition cl_sum (cls : Z) (self : list arg) : M arg :=
@@ -332,13 +473,21 @@ Definition cl_sum (cls : Z) (self : list arg) : M arg :=
    A label that is None or '' is replaced by a default naming the input's type: the callers of
    this model always give labels.  Receivers are audio-rate units, so rate = 'audio' per channel
    (the list of rates that Poll.new passes has the length of the receiver and changes nothing). *)
+Definition rate_sid (r : rate) : Z := (-1 - rate_code r)%Z.        (* the rate NAME as a string atom *)
+Definition sid_rate (z : Z) : option rate :=
+  match z with (-1)%Z => Some RScalar | (-2)%Z => Some RControl | (-3)%Z => Some RAudio | (-4)%Z => Some RDemand | _ => None end.
 Definition poll_new1 (poll impulse : Z) (args : list arg) : M arg :=
   match args with
-  | [trig; input; label; tid] =>
-    bind (match trig with
-          | Scalar (K z) => multi_new (new1_plain impulse 1) [trig; Scalar (K 0%Z)]
-          | _ => ret trig
-          end) (fun trig' => new1_plain poll 1 [trig'; input; tid; label])
+  | [Scalar (Str rs); trig; input; label; tid] =>
+    match sid_rate rs with
+    | Some r =>
+      let r' := match r with RScalar => RControl | _ => r end in
+      bind (match trig with
+            | Scalar (K z) => multi_new (new1_plain (with_rate impulse r') 1) [trig; Scalar (K 0%Z)]
+            | _ => ret trig
+            end) (fun trig' => new1_plain (with_rate poll r') 1 [trig'; input; tid; label])
+    | None => raise TypeError
+    end
   | _ => raise TypeError
   end.
 Definition dpoll_new1 (dpoll : Z) (args : list arg) : M arg :=
@@ -350,27 +499,37 @@ Definition dpoll_new1 (dpoll : Z) (args : list arg) : M arg :=
    ([deflabels], supplied with that length); Poll.new(trig, self, label, trig_id) returns self *)
 Definition none_arg : arg := Scalar (Str 0%Z).
 Definition is_none (a : arg) : bool := match a with Scalar (Str 0%Z) => true | _ => false end.
+(* Poll.new: rate = unbubble([rate of item for item in as_list(input)]) goes through the
+   expansion as one more (list) argument: a channel's Poll gets the rate of ITS receiver element *)
+Definition unbubble (a : arg) : arg := match a with Lst [x] => x | _ => a end.
+Fixpoint rates_of (st : state) (l : list arg) : option (list arg) :=
+  match l with
+  | [] => Some []
+  | x :: r => match arg_rate st x, rates_of st r with
+              | Some rx, Some rr => Some (Scalar (Str (rate_sid rx)) :: rr)
+              | _, _ => None
+              end
+  end.
 Definition cl_poll (poll impulse : Z) (self : list arg) (trig label tid : arg) (deflabels : list arg) : M arg :=
   let label' := if is_none label then Lst deflabels else label in
-  bind (multi_new (poll_new1 poll impulse) [trig; Lst self; label'; tid]) (fun _ => ret (Lst self)).
+  fun st => match rates_of st self with
+            | Some rs => bind (multi_new (poll_new1 poll impulse) [unbubble (Lst rs); trig; Lst self; label'; tid])
+                              (fun _ => ret (Lst self)) st
+            | None => Err IndexError
+            end.
 (* ChannelList.dpoll(label, run, trig_id): dmd.Dpoll(self, label, run, trig_id) -> Dpoll.dr(...) *)
 Definition cl_dpoll (dpoll : Z) (self : list arg) (label run tid : arg) (deflabels : list arg) : M arg :=
   let label' := if is_none label then Lst deflabels else label in
   multi_new (dpoll_new1 dpoll) [Lst self; label'; run; tid].
 
-(* MulAdd.new(input, mul, add) -> _multi_new(rate, input, mul, add); constants 0, 1, -1 for mul/add
-   trigger _new1 shortcuts (C01) and are excluded by callers; inputs are audio-rate units. *)
-Definition muladd_new (cls : Z) (input mul add : arg) : M arg :=
-  multi_new (new1_plain cls 1) [input; mul; add].
-(* ChannelList.madd as the wrap-and-zip law requires it (and as sclang's Array.madd does):
-     return MulAdd.new(self, mul, add)                       [build/proposed_fixes/C03_madd.diff] *)
-Definition cl_madd (cls : Z) (self : list arg) (mul add : arg) : M arg :=
-  muladd_new cls (Lst self) mul add.
-(* ChannelList.madd as written in sc3 today:
+(* ChannelList.madd: return MulAdd.new(self, mul, add)   (since fix 925c2da; sclang's Array.madd) *)
+Definition cl_madd (base bm ba : Z) (self : list arg) (mul add : arg) : M arg :=
+  muladd_new base bm ba (Lst self) mul add.
+(* ChannelList.madd as written before that fix:
      return type(self)(MulAdd.new(i, mul, add) for i in self)
    mul and add are NOT zipped with self: every channel is expanded against the whole of them. *)
-Definition cl_madd_unpatched (cls : Z) (self : list arg) (mul add : arg) : M arg :=
-  bind (mapM (fun i => muladd_new cls i mul add) self) (fun r => ret (Lst r)).
+Definition cl_madd_unpatched (base bm ba : Z) (self : list arg) (mul add : arg) : M arg :=
+  bind (mapM (fun i => muladd_new base bm ba i mul add) self) (fun r => ret (Lst r)).
 
 (* ---- Out ------------------------------------------------------------------ *)
 (* _replace_zeroes_with_silence(lst): silence = DC.ar(0) is created on EVERY call (also the
